@@ -108,6 +108,11 @@ def C08():
     #                                                                                in distinct objects
     tot += r_reg.run_jobs(chk, u, "R-REG.refuse", jobs, view=r_reg.clause_view(
         "different grid", "differing grids", "DIFFERING_GRIDS", "is refused with", "leaves both operands"))
+    # "a generator refuses a supplied grid that does not match its knots": every knot sequence x every way the grid can
+    # differ (point moved / extra / missing, in front, inside, at the end)
+    tot += r_reg.run_jobs(chk, u, "R-REG.val", _jobs("r_reg_val", "generator_suite", range(2, 5), maxlen=4,
+                                                     orders=())[:-1],
+                          view=r_reg.clause_view("BSplineGenerator(knots, grid)"))
     # an object that was assigned from another grid IS on that grid afterwards (else later operations compare against a
     # stale grid: wrongly accepted with the former grid, wrongly refused with the real one)
     tot += r_reg.run_jobs(chk, u, "R-REG.refuse", _jobs("r_reg_spl", "validity_suite", [3], nmax=3),
